@@ -75,6 +75,15 @@ def cases(tier, seed):
                 for r in range(reps):
                     k += 1
                     yield dict(kind='exact', integ=integ, model=model, d=d, L=L, dtkind=dtkind, steps=1, nitfac=1, big=True, seed=int(rng.integers(1 << 31)))
+    # one-dimensional sectors (all bonds of dimension one)
+    for integ in ('single', 'two'):
+        for (model, d) in FAMILIES:
+            for L in range(1 if integ == 'single' else 2, Lmax + 1):
+                if not h.model_available(model, L) or (d == 4 and L > Lmax - 1) or model in ('ising', 'rand0'):
+                    continue
+                for dtkind in ('real', 'imag', 'complex'):
+                    k += 1
+                    yield dict(kind='exact', integ=integ, model=model, d=d, L=L, dtkind=dtkind, steps=1 + k % 3, nitfac=1, onedim=True, seed=int(rng.integers(1 << 31)))
     Dmax = 4 if quick else 6
     for (model, d) in FAMILIES:
         for L in range(1, Lmax + 1):
@@ -112,7 +121,14 @@ def run_case(c):
     Hd, nH = h.dense_hamiltonian(H)
     qd = [int(x) for x in getattr(H, 'state_qd', H.qd)]      # 'randqz': the state's labels differ from the (zeroed) labels of H
     d = len(qd)
-    if c['kind'] == 'exact':
+    if c['kind'] == 'exact' and c.get('onedim'):
+        # the one-dimensional sector of maximal (or minimal) total charge: every bond has dimension one, the state is an eigenvector
+        # of H and exactness is about its phase / norm factor exp(-dt n E)
+        qx = max(qd) if c['seed'] % 2 else min(qd)
+        if qd.count(qx) != 1:
+            return skip('extreme charge is not unique')
+        st = dict(qD=[[i * qx] for i in range(L + 1)], qL=L * qx, complete=True, uniform=True)
+    elif c['kind'] == 'exact':
         st = h.choose_state(rng, qd, L, 'complete', None, need_uniform=True)
     else:
         st = h.choose_state(rng, qd, L, c['bstyle'], c['Dmax'])
@@ -147,7 +163,7 @@ def run_case(c):
     steps = c['steps']
     psin = v0 / n0
     secdim = int(np.count_nonzero(h.sector_mask(qd, L, st['qL'])))
-    nontrivial = secdim >= 2 and nH > 1e-12
+    nontrivial = (secdim >= 2 or bool(c.get('onedim'))) and nH > 1e-12
 
     def integrate(dtv):
         if integ == 'single':
